@@ -114,8 +114,9 @@ def _has_call(e, extra=()):
     for n in ast.walk(e):
         if isinstance(n, ast.Await):
             return True
-        if isinstance(n, ast.Call) and not (isinstance(n.func, ast.Name) and (
-                n.func.id in PURE_BUILTINS or n.func.id in extra)):
+        if isinstance(n, ast.Call) and not ((isinstance(n.func, ast.Name) and (
+                n.func.id in PURE_BUILTINS or n.func.id in extra)) or (
+                isinstance(n.func, ast.Attribute) and n.func.attr in extra)):
             return True
     return False
 
@@ -127,6 +128,21 @@ def _assigned_names(stmts):
             if isinstance(n, ast.Name) and isinstance(n.ctx, (ast.Store, ast.Del)):
                 out.add(n.id)
     return out
+
+
+def _const_truth(t):
+    """True/False when the substituted test is a literal (dead branch pruning), else None"""
+    if isinstance(t, ast.Constant):
+        return bool(t.value)
+    if isinstance(t, ast.UnaryOp) and isinstance(t.op, ast.Not):
+        k = _const_truth(t.operand)
+        return None if k is None else (not k)
+    if isinstance(t, ast.Compare) and len(t.ops) == 1 and isinstance(t.left, ast.Constant) and \
+            isinstance(t.comparators[0], ast.Constant) and isinstance(t.ops[0], (ast.Is, ast.IsNot)) \
+            and (t.left.value is None or t.comparators[0].value is None):
+        same = t.left.value is t.comparators[0].value
+        return same if isinstance(t.ops[0], ast.Is) else not same
+    return None
 
 
 def _split_ifexp(expr):
@@ -152,7 +168,9 @@ class Walker(object):
 
     def __init__(self, is_sink=None, want_returns=False, want_raises=False, max_paths=MAX_PATHS,
                  inline_limit=400, want_exits=False, pure=(), sink_types=(ast.Call,),
-                 track_attrs=()):
+                 track_attrs=(), trace=False, merge=False):
+        self.trace = trace
+        self.merge = merge
         # track_attrs: attribute chains (e.g. 'p.pos') treated like local variables; only sound
         # where no call in the walked code writes them (the rule using it says why)
         self.track_attrs = tuple(track_attrs)
@@ -202,9 +220,39 @@ class Walker(object):
         return states
 
     def _sinks_in(self, node, env, conds):
+        """record sink occurrences inside `node`; returns the environment (extended by the
+        event trace '#trace' when tracing is on: the ordered sink calls seen on this path)"""
         for n in ast.walk(node):
             if isinstance(n, self.sink_types) and self.is_sink(n):
-                self.cases.append(Case(list(conds), n, subst(n, env), dict(env), 'call'))
+                sub = subst(n, env)
+                self.cases.append(Case(list(conds), n, sub, dict(env), 'call'))
+                if self.trace:
+                    env = dict(env)
+                    env['#trace'] = env.get('#trace', ()) + ((n, sub),)
+        return env
+
+    @staticmethod
+    def _merge(states, ncommon):
+        """join point: states whose environments bind every name to the very same value object
+        differ only in branch decisions that assigned nothing; they are merged, keeping the
+        decisions they share -- the dropped decisions cannot influence any value seen later"""
+        if len(states) < 2:
+            return states
+        out, seen = [], {}
+        for env, conds in states:
+            key = tuple(sorted((k, id(v)) for k, v in env.items()))
+            if key in seen:
+                i = seen[key]
+                e0, c0 = out[i]
+                if c0 != conds:
+                    n = 0
+                    while n < len(c0) and n < len(conds) and c0[n] is conds[n]:
+                        n += 1
+                    out[i] = (e0, c0[:n])
+                continue
+            seen[key] = len(out)
+            out.append((env, conds))
+        return out
 
     def _bind(self, env, name, value, site=None, tag=''):
         """value None = opaque.  A name that already had a meaning on this path (an earlier
@@ -229,11 +277,15 @@ class Walker(object):
         if isinstance(s, ast.If):
             t_states, f_states = [], []
             for env, conds in states:
-                self._sinks_in(s.test, env, conds)
+                env = self._sinks_in(s.test, env, conds)
                 t = subst(s.test, env)
-                t_states.append((env, conds + ((t, True),)))
-                f_states.append((env, conds + ((t, False),)))
-            return self._block(s.body, t_states) + self._block(s.orelse, f_states)
+                k = _const_truth(t)
+                if k is not False:
+                    t_states.append((env, conds + ((t, True),)))
+                if k is not True:
+                    f_states.append((env, conds + ((t, False),)))
+            res = self._block(s.body, t_states) + self._block(s.orelse, f_states)
+            return self._merge(res, 0) if self.merge else res
         if isinstance(s, (ast.For, ast.While, ast.AsyncFor)):
             killed = _assigned_names(s.body) | _assigned_names(getattr(s, 'orelse', []))
             if isinstance(s, ast.For):
@@ -242,7 +294,7 @@ class Walker(object):
             for env, conds in states:
                 env = self._havoc(env, killed, s, 'l')
                 hdr = s.iter if isinstance(s, ast.For) else s.test
-                self._sinks_in(hdr, env, conds)
+                env = self._sinks_in(hdr, env, conds)
                 st2.append((env, conds))
             body_conds = []
             for env, conds in st2:
@@ -274,10 +326,16 @@ class Walker(object):
                 after = self._block(s.finalbody, after)
             return after
         if isinstance(s, ast.With):
+            st2 = []
             for env, conds in states:
                 for it in s.items:
-                    self._sinks_in(it.context_expr, env, conds)
-            return self._block(s.body, states)
+                    env = self._sinks_in(it.context_expr, env, conds)
+                    if it.optional_vars is not None:
+                        for n_ in ast.walk(it.optional_vars):
+                            if isinstance(n_, ast.Name):
+                                env = self._bind(env, n_.id, None, s)
+                st2.append((env, conds))
+            return self._block(s.body, st2)
         if isinstance(s, (ast.FunctionDef, ast.AsyncFunctionDef, ast.ClassDef)):
             return [(self._bind(env, s.name, None, s), conds) for env, conds in states]
         if isinstance(s, ast.Return):
@@ -285,9 +343,9 @@ class Walker(object):
                 if s.value is not None:
                     for cs, e in _split_ifexp(s.value):
                         c2 = conds + tuple((subst(t, env), p) for t, p in cs)
-                        self._sinks_in(e, env, c2)
+                        env_r = self._sinks_in(e, env, c2)
                         if self.want_returns:
-                            self.cases.append(Case(list(c2), s, subst(e, env), dict(env), 'return'))
+                            self.cases.append(Case(list(c2), s, subst(e, env), dict(env_r), 'return'))
                 elif self.want_returns:
                     self.cases.append(Case(list(conds), s, ast.Constant(value=None), dict(env), 'return'))
                 if self.want_exits and not self.want_returns:
@@ -297,7 +355,7 @@ class Walker(object):
         if isinstance(s, ast.Raise):
             for env, conds in states:
                 if s.exc is not None:
-                    self._sinks_in(s.exc, env, conds)
+                    env = self._sinks_in(s.exc, env, conds)
                 if self.want_exits and not self.want_raises:
                     self.cases.append(Case(list(conds), s, None, dict(env), 'raise'))
                 if self.want_raises:
@@ -315,9 +373,8 @@ class Walker(object):
             for env, conds in states:
                 for cs, e in _split_ifexp(s.value):
                     c2 = conds + tuple((subst(t, env), p) for t, p in cs)
-                    self._sinks_in(e, env, c2)
                     val = subst(e, env)
-                    env2 = env
+                    env2 = self._sinks_in(e, env, c2)
                     for tg in s.targets:
                         env2 = self._assign_target(env2, tg, val, c2, s)
                     out.append((env2, c2))
@@ -326,13 +383,14 @@ class Walker(object):
             for env, conds0 in states:
                 for cs, e in _split_ifexp(s.value):
                     conds = conds0 + tuple((subst(t, env), p) for t, p in cs)
-                    self._sinks_in(e, env, conds)
+                    rhs = subst(e, env)
+                    env = self._sinks_in(e, env, conds)
                     if isinstance(s.target, ast.Name):
                         cur = env.get(s.target.id)
                         if cur is None:
                             # parameter / first opaque binding: the name denotes itself
                             cur = ast.Name(id=s.target.id, ctx=ast.Load())
-                        new = ast.BinOp(left=clone(cur), op=s.op, right=subst(e, env))
+                        new = ast.BinOp(left=clone(cur), op=s.op, right=rhs)
                         out.append((self._bind(env, s.target.id, new, s), conds))
                     elif isinstance(s.target, ast.Attribute) and unparse(s.target) in self.track_attrs:
                         k = unparse(s.target)
@@ -340,7 +398,7 @@ class Walker(object):
                         if cur is None:
                             cur = clone(s.target)
                             cur.ctx = ast.Load()
-                        new = ast.BinOp(left=clone(cur), op=s.op, right=subst(e, env))
+                        new = ast.BinOp(left=clone(cur), op=s.op, right=rhs)
                         env2 = dict(env)
                         env2[k] = new
                         out.append((env2, conds))
@@ -350,14 +408,15 @@ class Walker(object):
         if isinstance(s, ast.AnnAssign):
             for env, conds in states:
                 if s.value is not None:
-                    self._sinks_in(s.value, env, conds)
+                    val = subst(s.value, env)
+                    env = self._sinks_in(s.value, env, conds)
                     if isinstance(s.target, ast.Name):
-                        env = self._bind(env, s.target.id, subst(s.value, env))
+                        env = self._bind(env, s.target.id, val)
                 out.append((env, conds))
             return out
         # Expr, Assert, Delete, Pass, Global, Import ...
         for env, conds in states:
-            self._sinks_in(s, env, conds)
+            env = self._sinks_in(s, env, conds)
             if isinstance(s, ast.Delete):
                 for k in _assigned_names([s]):
                     env = self._bind(env, k, None, s)
